@@ -122,6 +122,7 @@ OneofShapes == <<
   Shape("x.excl.first", Desc(<<Msg("Root", <<InOneof(Fld("BranchA", 1, "string"), "Grp"), InOneof(Fld("BranchB", 2, "bool"), "Grp"),
         InOneof(Fld("BranchC", 3, "string"), "Grp2"), InOneof(Fld("BranchD", 4, "int32"), "Grp2")>>, <<"Grp", "Grp2">>)>>),
         [BaseCfg EXCEPT !.exclude = <<"Root.BranchA", "Root.BranchD">>]),
+  Shape("x.acronym", Desc(<<Leaf, Msg("Root", <<Fld("Str", 1, "string"), InOneof(Fld("BranchA", 2, "string"), "TLSMode"), InOneof(MsgF("BranchB", 3, "Leaf"), "TLSMode")>>, <<"TLSMode">>)>>), BaseCfg),
   Shape("x.two", Desc(<<Msg("Root", <<InOneof(Fld("BranchA", 1, "string"), "Grp"), InOneof(Fld("BranchB", 2, "string"), "Grp"),
         InOneof(Fld("BranchC", 3, "int32"), "Grp2"), InOneof(Fld("BranchD", 4, "int32"), "Grp2")>>, <<"Grp", "Grp2">>)>>), BaseCfg) >>
 
@@ -132,6 +133,10 @@ EmbedShapes == <<
   Shape("e.val.in.val", Desc(<<Msg("Inner", <<Fld("Num", 1, "int32")>>, <<>>),
         Msg("Outer", <<Fld("Str", 1, "string"), NonNull(Embed(MsgF("Inner", 2, "Inner")))>>, <<>>),
         Msg("Root", <<NonNull(Embed(MsgF("Outer", 1, "Outer"))), Fld("Flag", 2, "bool")>>, <<>>)>>), BaseCfg),
+  \* a NULLABLE embedded message inside a message that is itself embedded BY VALUE
+  Shape("e.ptr.in.val", Desc(<<Msg("Inner", <<Fld("Num", 1, "int32"), Fld("Flag", 2, "bool")>>, <<>>),
+        Msg("Outer", <<Fld("Str", 1, "string"), Embed(MsgF("Inner", 2, "Inner"))>>, <<>>),
+        Msg("Root", <<NonNull(Embed(MsgF("Outer", 1, "Outer"))), Fld("Zed", 2, "string")>>, <<>>)>>), BaseCfg),
   \* an embedded message (by value) that has a oneof group of its own: its branches are fields of the embedding message
   Shape("e.val.oneof", Desc(<<Msg("Inner", <<Fld("Num", 1, "int32"), InOneof(Fld("BranchA", 2, "string"), "Grp"), InOneof(Fld("BranchB", 3, "int32"), "Grp")>>, <<"Grp">>),
         Msg("Root", <<Fld("Str", 1, "string"), NonNull(Embed(MsgF("Inner", 2, "Inner")))>>, <<>>)>>), BaseCfg),
@@ -163,7 +168,10 @@ DeepShapes == <<
   WithMid("d.obj", MsgF("Mid", 1, "Mid")),
   WithMid("d.obj.val", NonNull(MsgF("Mid", 1, "Mid"))),
   WithMid("d.list", Rep(MsgF("Subs", 1, "Mid"))),
-  WithMid("d.map", MapOf(MsgF("Dict", 1, "Mid"))) >>
+  WithMid("d.map", MapOf(MsgF("Dict", 1, "Mid"))),
+  \* a map and a list of messages held by a NESTED message (paths of their elements' fields run through two levels)
+  Shape("d.obj.dict", Desc(<<Leaf, Msg("Outer", <<MapOf(MsgF("Dict", 1, "Leaf")), Rep(MsgF("Subs", 2, "Leaf")), Fld("Num", 3, "int32")>>, <<>>),
+        Msg("Root", <<MsgF("Sub", 1, "Outer"), Fld("Str", 2, "string")>>, <<>>)>>), BaseCfg) >>
 
 \* two independent units in one message: couplings through shared tf / obj shadowing
 PairShapes == <<
@@ -176,6 +184,9 @@ PairShapes == <<
   Shape("p.value.obj", Desc(<<Leaf, Msg("Root", <<MsgF("value", 1, "Leaf"), MapOf(MsgF("Dict", 2, "Leaf"))>>, <<>>)>>), BaseCfg),
   Shape("p.value.other", Desc(<<Leaf, Msg("Inner", <<Fld("Num", 1, "int32"), Fld("Flag", 2, "bool")>>, <<>>),
         Msg("Root", <<MsgF("value", 1, "Leaf"), MapOf(MsgF("Dict", 2, "Inner"))>>, <<>>)>>), BaseCfg),
+  \* a message at three paths, one field of it excluded by the full path of the FIRST occurrence only
+  Shape("p.excl.path", Desc(<<Msg("Leaf", <<Fld("Str", 1, "string"), Fld("Num", 2, "int32")>>, <<>>),
+        Msg("Root", <<MsgF("Sub", 1, "Leaf"), MsgF("Sub2", 2, "Leaf"), Rep(MsgF("Subs", 3, "Leaf"))>>, <<>>)>>), [BaseCfg EXCEPT !.exclude = <<"Root.Sub.Str">>]),
   Shape("p.key.str", Desc(<<Msg("Root", <<Fld("key", 1, "string"), MapOf(Fld("Tags", 2, "string")), Rep(Fld("Items", 3, "string"))>>, <<>>)>>), BaseCfg) >>
 
 \* an excluded field: the Go field exists, the schema does not describe it (C05: left untouched)
